@@ -564,15 +564,18 @@ class AnnotateStream(Stream):
                 "expected": plan(case)}
 
 
+import c11s11     # noqa: E402  (needs the helpers above)
+
 PROPERTY = Property(
     pid="C11",
-    streams=[AnnotateStream(), annot_e2e.AnnotateE2EStream()],
+    streams=[AnnotateStream(), annot_e2e.AnnotateE2EStream()] + c11s11.STREAMS,
     assumptions=[
         "the header builder (comment creation, template rendering, the post-render check) is a parameter of the model; which "
         "written paths it fails for is the generator's ground truth (multi-line terminator inside the holder, template that drops "
         "both the copyright lines and the licences, forced style)",
-        "a template that drops only the licences (or only the copyright lines) is not generated: whether that is reported as a "
-        "failure is the subject of C07 (guard uses `and`)",
+        "streams annotate / annotate-e2e: a template that drops only the licences (or only the copyright lines) is not generated "
+        "(whether that is a failure was the subject of C07's guard repair def7e01); streams amount / amount-api (oracle-only) do "
+        "generate templates whose fidelity depends on how much there is to render",
         "both --copyright and --license are always given on well-formed invocations, for the same reason",
         "the paths of one invocation are pairwise neither equal nor each other's .license sibling (hypothesis `separate` of the "
         "theorems; naming FILE and FILE.license together processes FILE.license twice)",
